@@ -50,6 +50,11 @@ type hookLog struct {
 type hookArgs struct {
 	Symbol string    `json:"symbol"`
 	Logs   []hookLog `json:"logs"`
+	// Via: what the Ethereum transaction was addressed to. "" = the token contract itself;
+	// "router" = another contract that called the token contract internally (a router, a
+	// multisig wallet, a multicall: the logs are the token contract's all the same);
+	// "create" = a contract creation (no target)
+	Via string `json:"via,omitempty"`
 }
 
 var _ engine.FaultGen = (*Module)(nil)
@@ -114,6 +119,10 @@ func (m *Module) GenFaults(w *engine.World, r *engine.Rand) []engine.Fault {
 		return w.A(r.Intn(nAct)).Addr.String()
 	}
 	a := hookArgs{Symbol: t.Symbol}
+	// (a stream of its own: a seed's run is otherwise what it was before this existed)
+	if vr := engine.NewRand(engine.Mix(w.Sched.Seed, "hook-via", uint64(w.Height))); vr.Bool(0.3) {
+		a.Via = []string{"router", "router", "create"}[vr.Intn(3)]
+	}
 	k := 1 + r.Intn(4)
 	prev := ""
 	for i := 0; i < k; i++ {
@@ -276,7 +285,17 @@ func (m *Module) OnFault(w *engine.World, f engine.Fault) {
 	// (3) the hook, obtained the way an EVM module obtains it: Keeper.Hooks()
 	var hook tokentypes.Hook = n.K.Token.Hooks()
 	from := common.HexToAddress(a.Logs[0].From)
-	msg := ethtypes.NewMessage(from, &contract, 0, big.NewInt(0), 3_000_000, big.NewInt(0), big.NewInt(0), big.NewInt(0), nil, ethtypes.AccessList{}, false)
+	target := &contract
+	switch a.Via {
+	case "router":
+		router := common.HexToAddress("0x00000000000000000000000000000000000beef1")
+		target = &router
+		w.Hit("token.hook_via_other_contract")
+	case "create":
+		target = nil
+		w.Hit("token.hook_via_other_contract")
+	}
+	msg := ethtypes.NewMessage(from, target, 0, big.NewInt(0), 3_000_000, big.NewInt(0), big.NewInt(0), big.NewInt(0), nil, ethtypes.AccessList{}, false)
 	var herr error
 	if perr := engine.Catch("PostTxProcessing", func() error { herr = hook.PostTxProcessing(ctx, msg, receipt); return nil }); perr != nil {
 		w.Violate("C10", "hook/panic", "the swap-to-native hook panicked on a receipt with %d logs (%d SwapToNative of %s): %v", len(receipt.Logs), recognised, t.Symbol, perr)
